@@ -1,6 +1,233 @@
-From Coq Require Import String ZArith List Bool.
+(** C07 property theorems: statements only; proofs are in Lemmas.v.
+    All statements are about the definitions of Model.v that the correspondence executes.
+    Theorems over a generic carrier [O : Ops T] hold for the executed instance QO and for RO alike. *)
+From Coq Require Import String ZArith List Bool Permutation Reals QArith Qreals.
 From HV Require Import Common.Generic C07.Model C07.Lemmas.
 Import ListNotations.
+Open Scope Z_scope.
+
+(** ---- flat index <-> (i,j,l): every shape (ny, nz >= 1; 1xN is nx = 1, Nx1 is ny = 1, images nz = 1, volumes nz > 1) *)
+Theorem flat_unflat : forall ny nz i j l, 0 <= j < ny -> 0 <= l < nz ->
+  unflat ny nz (flat_index ny nz i j l) = (i, j, l).
+Proof. exact flat_unflat_l. Qed.
+Print Assumptions flat_unflat.
+
+Theorem unflat_flat : forall ny nz k, 0 < ny -> 0 < nz ->
+  let '(i, j, l) := unflat ny nz k in flat_index ny nz i j l = k /\ 0 <= j < ny /\ 0 <= l < nz.
+Proof. exact unflat_flat_l. Qed.
+Print Assumptions unflat_flat.
+
+Theorem flat_index_in_range : forall nx ny nz i j l, 0 <= i < nx -> 0 <= j < ny -> 0 <= l < nz ->
+  0 <= flat_index ny nz i j l < nx * ny * nz.
+Proof. exact flat_index_range. Qed.
+Print Assumptions flat_index_in_range.
+
+Theorem unflat_in_range : forall nx ny nz k, 0 < ny -> 0 < nz -> 0 <= k < nx * ny * nz ->
+  0 <= fst (fst (unflat ny nz k)) < nx.
+Proof. exact unflat_range. Qed.
+Print Assumptions unflat_in_range.
+
+(** ---- grids: the flat (x-major) coordinate list of ANY axes (any spacing, anisotropy, origin, crop) *)
+Theorem grid_flat_order : forall T (xs ys zs : list T) d dx dy dz i j l,
+  0 <= i < zlen xs -> 0 <= j < zlen ys -> 0 <= l < zlen zs ->
+  znth d (flat_coords (xs, ys, zs)) (flat_index (zlen ys) (zlen zs) i j l) = (znth dx xs i, znth dy ys j, znth dz zs l).
+Proof. exact @flat_coords_znth. Qed.
+Print Assumptions grid_flat_order.
+
+Theorem grid_every_flat_pixel : forall T (xs ys zs : list T) d dx dy dz k,
+  0 <= k < zlen (flat_coords (xs, ys, zs)) ->
+  let '(i, j, l) := unflat (zlen ys) (zlen zs) k in
+  znth d (flat_coords (xs, ys, zs)) k = (znth dx xs i, znth dy ys j, znth dz zs l).
+Proof. exact @flat_coords_unflat. Qed.
+Print Assumptions grid_every_flat_pixel.
+
+Theorem grid_size : forall T (a : axes T),
+  zlen (flat_coords a) = zlen (fst (fst a)) * zlen (snd (fst a)) * zlen (snd a).
+Proof. exact @zlen_flat_coords. Qed.
+Print Assumptions grid_size.
+
+(** make_coords / detector_grid / data_grid: pixel (i,j) of an nx x ny grid sits at (i*sx, j*sy, z) *)
+Theorem make_coords_pixel : forall T (O : Ops T) nx ny sx sy z d i j, 0 <= i < nx -> 0 <= j < ny ->
+  znth d (flat_coords (make_coords O nx ny sx sy z)) (flat_index ny 1 i j 0)
+  = (mul O (ofZ O i) sx, mul O (ofZ O j) sy, z).
+Proof. exact @make_coords_znth. Qed.
+Print Assumptions make_coords_pixel.
+
+(** flat(): flat element flat_index(i,j,l) is the stored pixel (l,i,j); from_flat(flat(.)) gives it back *)
+Theorem flat_value_is_stored_pixel : forall V (d : V) nx ny nz data i j l,
+  0 <= i < nx -> 0 <= j < ny -> 0 <= l < nz ->
+  znth d (stack_vals d nx ny nz data) (flat_index ny nz i j l) = znth d data (storage_index nx ny i j l).
+Proof. exact @stack_vals_znth. Qed.
+Print Assumptions flat_value_is_stored_pixel.
+
+Theorem from_flat_of_flat : forall V (d : V) nx ny nz data i j l,
+  0 <= i < nx -> 0 <= j < ny -> 0 <= l < nz ->
+  unstack_at d ny nz (stack_vals d nx ny nz data) i j l = znth d data (storage_index nx ny i j l).
+Proof. exact @unstack_stack. Qed.
+Print Assumptions from_flat_of_flat.
+
+(** ---- grid = explicit points of its coordinates, for ANY theory F (pointwise or not) *)
+Theorem grid_eq_points : forall T (O : Ops T) V (F : list (pos T) -> list V) k c a,
+  calc_grid O F k c a
+  = calc_points O F k c (det_points (map px (flat_coords a)) (map py (flat_coords a)) (map pz (flat_coords a))).
+Proof. exact @grid_eq_points_l. Qed.
+Print Assumptions grid_eq_points.
+
+Theorem detector_points_roundtrip : forall T (pts : list (T * T * T)),
+  det_points (map px pts) (map py pts) (map pz pts) = pts.
+Proof. exact @det_points_unzip. Qed.
+Print Assumptions detector_points_roundtrip.
+
+Theorem detector_points_scalar_z : forall T (xs ys : list T) z, length xs = length ys -> (1 <= length xs)%nat ->
+  det_points xs ys [z] = zip3 xs ys (repeat z (length xs)).
+Proof. exact @det_points_scalar_z. Qed.
+Print Assumptions detector_points_scalar_z.
+
+(** ---- THE property, for every pointwise theory f: equal positions => equal values, whatever the two
+    detectors are (grid, shifted grid, crop, point list, subset) and wherever the position sits in them *)
+Theorem value_depends_only_on_position : forall T (O : Ops T) V (f : pos T -> V) k c coords1 coords2 d dp p q,
+  0 <= p < zlen coords1 -> 0 <= q < zlen coords2 -> znth dp coords1 p = znth dp coords2 q ->
+  znth d (calc_flat O (map f) k c coords1) p = znth d (calc_flat O (map f) k c coords2) q.
+Proof. exact @value_depends_only_on_position_l. Qed.
+Print Assumptions value_depends_only_on_position.
+
+Theorem grid_pixel_value : forall T (O : Ops T) V (f : pos T -> V) k c xs ys zs d dx dy dz i j l,
+  0 <= i < zlen xs -> 0 <= j < zlen ys -> 0 <= l < zlen zs ->
+  znth d (calc_grid O (map f) k c (xs, ys, zs)) (flat_index (zlen ys) (zlen zs) i j l)
+  = f (to_theory O k c (znth dx xs i, znth dy ys j, znth dz zs l)).
+Proof. exact @calc_grid_pixel_l. Qed.
+Print Assumptions grid_pixel_value.
+
+(** ---- selecting pixels commutes with the forward calculation, for EVERY selection *)
 Theorem select_commutes : forall A B (f : A -> B) d sel l, map f (subset d sel l) = subset (f d) sel (map f l).
 Proof. exact @select_commutes_l. Qed.
 Print Assumptions select_commutes.
+
+Theorem subset_calc_commutes : forall T (O : Ops T) V (f : pos T -> V) k c a sel,
+  calc_subset O (map f) k c a sel
+  = subset (f (to_theory O k c (zero O, zero O, zero O))) sel (calc_grid O (map f) k c a).
+Proof. exact @calc_subset_commutes_l. Qed.
+Print Assumptions subset_calc_commutes.
+
+Theorem subset_calc_pixel : forall T (O : Ops T) V (f : pos T -> V) k c a sel d p,
+  0 <= p < zlen sel -> 0 <= znth 0 sel p < zlen (flat_coords a) ->
+  znth d (calc_subset O (map f) k c a sel) p = znth d (calc_grid O (map f) k c a) (znth 0 sel p).
+Proof. exact @calc_subset_pixel_l. Qed.
+Print Assumptions subset_calc_pixel.
+
+(** ---- crops *)
+Theorem crop_is_subset : forall T (O : Ops T) (xs ys zs : list T) xi yj d,
+  Forall (fun k => 0 <= k < zlen xs) xi -> Forall (fun k => 0 <= k < zlen ys) yj ->
+  flat_coords (crop_axes O (xs, ys, zs) xi yj)
+  = subset d (crop_sel (zlen ys) (zlen zs) xi yj (zrange (zlen zs))) (flat_coords (xs, ys, zs)).
+Proof. exact @flat_coords_crop. Qed.
+Print Assumptions crop_is_subset.
+
+Theorem crop_calc_commutes : forall T (O : Ops T) V (f : pos T -> V) k c xs ys zs xi yj d,
+  Forall (fun k => 0 <= k < zlen xs) xi -> Forall (fun k => 0 <= k < zlen ys) yj ->
+  calc_grid O (map f) k c (crop_axes O (xs, ys, zs) xi yj)
+  = subset d (crop_sel (zlen ys) (zlen zs) xi yj (zrange (zlen zs))) (calc_grid O (map f) k c (xs, ys, zs)).
+Proof. exact @calc_crop_commutes_l. Qed.
+Print Assumptions crop_calc_commutes.
+
+(** subimage's index arithmetic (round-half-even, python slices) always yields valid, distinct pixels *)
+Theorem crop_indices_valid : forall n c2 s, 0 <= n ->
+  Forall (fun k => 0 <= k < n) (crop_idx n c2 s) /\ NoDup (crop_idx n c2 s).
+Proof. intros n c2 s H. split; [exact (crop_idx_range n c2 s H)|exact (crop_idx_NoDup n c2 s)]. Qed.
+Print Assumptions crop_indices_valid.
+
+Theorem crop_inside_even : forall n c h, 0 <= c - h -> c + h <= n -> 0 <= h ->
+  crop_idx n (2 * c) (2 * h) = zrange_from (c - h) (Z.to_nat (2 * h)).
+Proof. exact crop_idx_inside_even. Qed.
+Print Assumptions crop_inside_even.
+
+Theorem crop_selection_valid : forall nx ny nz xi yj zl,
+  Forall (fun k => 0 <= k < nx) xi -> Forall (fun k => 0 <= k < ny) yj -> Forall (fun k => 0 <= k < nz) zl ->
+  NoDup xi -> NoDup yj -> NoDup zl ->
+  Forall (fun k => 0 <= k < nx * ny * nz) (crop_sel ny nz xi yj zl) /\ NoDup (crop_sel ny nz xi yj zl).
+Proof. intros. split; [now apply crop_sel_range|now apply (crop_sel_NoDup nx)]. Qed.
+Print Assumptions crop_selection_valid.
+
+(** ---- random subsets: the RNG is an oracle with contract sel_ok (evaluated on every observed draw) *)
+Theorem rng_contract_meaning : forall n m sel,
+  sel_ok n m sel = true <-> zlen sel = m /\ Forall (fun k => 0 <= k < n) sel /\ NoDup sel.
+Proof. exact sel_ok_spec. Qed.
+Print Assumptions rng_contract_meaning.
+
+Theorem subset_keeps : forall T V (O : Ops T) (dv : V) xs ys zs vals (at_ : attrs T) sel m,
+  zlen vals = zlen (flat_coords (xs, ys, zs)) -> 1 <= zlen zs -> sel_ok (tot_pix xs ys) m sel = true ->
+  let s := make_subset O dv (xs, ys, zs) vals at_ sel in
+  let d0 := (zero O, zero O, zero O) in
+  NoDup sel /\ zlen (ss_vals s) = m /\ zlen (ss_coords s) = m /\
+  (forall p, 0 <= p < m ->
+     0 <= znth 0 sel p < zlen vals /\
+     znth dv (ss_vals s) p = znth dv vals (znth 0 sel p) /\
+     znth d0 (ss_coords s) p = znth d0 (flat_coords (xs, ys, zs)) (znth 0 sel p)) /\
+  ss_attrs s = at_ /\
+  ss_orig s = [("z", zs); ("x", xs); ("y", ys)]%string /\
+  (NoDup xs -> NoDup ys -> NoDup zs -> NoDup (ss_coords s)).
+Proof. exact @make_subset_keeps_l. Qed.
+Print Assumptions subset_keeps.
+
+Theorem subset_of_all_pixels_is_permutation : forall V (d : V) sel l,
+  sel_ok (zlen l) (zlen l) sel = true -> Permutation (subset d sel l) l.
+Proof. exact @subset_all_pixels_permutation. Qed.
+Print Assumptions subset_of_all_pixels_is_permutation.
+
+(** ---- purity and history independence: for every call sequence on one detector object the detector
+    left behind is the detector given, and every result is the result on the untouched detector *)
+Theorem inputs_unchanged : forall T (O : Ops T) V W (dv : V) (F : list (pos T) -> list W) ops (d : detector T V),
+  run O dv F d ops = (d, map (fun o => snd (step O dv F d o)) ops).
+Proof. exact @run_spec. Qed.
+Print Assumptions inputs_unchanged.
+
+(** ---- metadata: update_metadata leaves the input attrs alone; a given value overwrites, None never
+    overwrites, a missing standard key is created as None, all other keys are kept *)
+Theorem update_metadata_semantics : forall T (a : attrs T) mi wl pol nsd k,
+  let upd := [("medium_index", mi); ("illum_wavelen", wl); ("illum_polarization", pol); ("noise_sd", nsd)]%string in
+  fst (update_metadata a mi wl pol nsd) = a /\
+  get_attr k (snd (update_metadata a mi wl pol nsd)) =
+    match get_attr k upd with
+    | Some (Some x) => Some (Some x)
+    | Some None => match get_attr k a with Some x => Some x | None => Some None end
+    | None => get_attr k a
+    end.
+Proof. exact @update_metadata_spec. Qed.
+Print Assumptions update_metadata_semantics.
+
+(** ---- shifted origin (real numbers): moving detector and scatterer together hands ANY theory the same positions *)
+Theorem translate_together : forall V (F : list (pos R) -> list V) k c a t,
+  calc_grid RO F k (shift_pos RO t c) (shift_axes RO a t) = calc_grid RO F k c a.
+Proof. exact @calc_grid_translate. Qed.
+Print Assumptions translate_together.
+
+(** ---- what is executed (QO) is what the R statements are about *)
+Theorem to_theory_agrees_on_Q : forall k c p,
+  posQ2R (to_theory QO k c p) = to_theory RO (Q2R k) (posQ2R c) (posQ2R p).
+Proof. exact to_theory_Q_R. Qed.
+Print Assumptions to_theory_agrees_on_Q.
+
+Theorem make_coords_agrees_on_Q : forall n s, map Q2R (arange_mul QO n s) = arange_mul RO n (Q2R s).
+Proof. exact arange_mul_Q_R. Qed.
+Print Assumptions make_coords_agrees_on_Q.
+
+Theorem holo_px_agrees_on_Q : forall p1 p2 sc E,
+  Q2R (holo_px QO p1 p2 sc E)
+  = holo_px RO (Q2R p1) (Q2R p2) (Q2R sc)
+      (let '((xr, xi), (yr, yi), (zr, zi)) := E in ((Q2R xr, Q2R xi), (Q2R yr, Q2R yi), (Q2R zr, Q2R zi))).
+Proof. exact holo_px_Q_R. Qed.
+Print Assumptions holo_px_agrees_on_Q.
+
+(** ---- non-vacuity: the hypotheses are satisfiable by concrete non-trivial objects *)
+Example hyps_satisfiable :
+  (* a 2 x 3 image, 3 of 6 pixels drawn: the RNG contract holds, and the subset is what subset_keeps says *)
+  sel_ok (tot_pix [0; 1]%Q [0; 1; 2]%Q) 3 [5; 0; 3] = true /\
+  ss_coords (make_subset QO 0%Q ([0; 1]%Q, [0; 1; 2]%Q, [7]%Q) [10; 11; 12; 13; 14; 15]%Q [] [5; 0; 3])
+    = [(1, 2, 7); (0, 0, 7); (1, 0, 7)]%Q /\
+  ss_vals (make_subset QO 0%Q ([0; 1]%Q, [0; 1; 2]%Q, [7]%Q) [10; 11; 12; 13; 14; 15]%Q [] [5; 0; 3]) = [15; 10; 13]%Q /\
+  (* 1xN and volume shapes of the index bijection *)
+  unflat 4 1 (flat_index 4 1 0 3 0) = (0, 3, 0) /\ unflat 3 2 17 = (2, 2, 1) /\ flat_index 3 2 2 2 1 = 17 /\
+  (* a crop with valid in-range indices: 5-pixel axis, centre 2.5 (-> 2, half-even), size 2 *)
+  crop_idx 5 5 2 = [1; 2] /\ crop_idx 5 4 4 = [0; 1; 2; 3] /\ crop_idx 3 7 4 = [2] /\
+  sel_ok 6 6 [4; 2; 0; 5; 1; 3] = true.
+Proof. vm_compute. repeat split; reflexivity. Qed.
